@@ -840,7 +840,7 @@ func run(c *mon.Ctx) {
 	}
 	r := c.Rand("paths")
 	g := &jpspec.Gen{R: r, Keys: []string{"a", "b", "c", "d", "k"}}
-	n := c.Pick(400000, 4000000) / c.Batches
+	n := c.Pick(1600000, 12000000) / c.Batches
 	for i := 0; i < n; i++ {
 		g.ResetLeaves()
 		data := g.Tree(2 + r.Intn(3))
